@@ -297,7 +297,7 @@ pub enum Backend {
     Svc(Svc),
 }
 impl Backend {
-    fn mutate(&self, text: &str, p: Parameters) -> Result<String, (&'static str, String)> {
+    pub fn mutate(&self, text: &str, p: Parameters) -> Result<String, (&'static str, String)> {
         match self {
             Backend::Conn(c) => c.mutate(text, p),
             Backend::Svc(s) => s
@@ -306,7 +306,7 @@ impl Backend {
                 .map_err(|e| (class_db(&e), e.to_string())),
         }
     }
-    fn query(&self, text: &str, p: Parameters) -> QueryOut {
+    pub fn query(&self, text: &str, p: Parameters) -> QueryOut {
         match self {
             Backend::Conn(c) => c.query(text, p),
             Backend::Svc(s) => match s.rt.block_on(s.svc.query(text, Some(p))) {
